@@ -470,9 +470,9 @@ theorem mem_upsertMsg_self (m : Msg) (l : List Msg) : m ∈ upsertMsg m l := by
     · have c' : (a.gid == m.gid && a.id == m.id) = false := by simpa using c
       rw [upsertMsg_miss m a t c']; exact List.mem_cons_of_mem _ ih
 
-theorem saveMessage_within (s : MemStore) (h : CInv s) (m : Msg) (pick : Option Nat) (u' : Store)
+theorem saveMessage_within (s : MemStore) (h : CInv s) (m : Msg) (u' : Store)
     (hs : Store.saveMessage s.u m = some u') (hw : WC s.cap s.msgCap u') :
-    ∃ s', saveMessage s m pick = some s' ∧ s'.u = u' ∧ CInv s' ∧ s'.cap = s.cap ∧ s'.msgCap = s.msgCap := by
+    ∃ s', saveMessage s m = some s' ∧ s'.u = u' ∧ CInv s' ∧ s'.cap = s.cap ∧ s'.msgCap = s.msgCap := by
   have hfg : ¬ (findGroup s.u m.gid).isNone = true := by
     intro c; unfold Store.saveMessage at hs; simp [h.hb, c] at hs
   have hu : u' = { s.u with msgs := upsertMsg m s.u.msgs } := by
@@ -809,7 +809,7 @@ theorem step_within (s : MemStore) (h : CInv s) (op : Op) (ch : List Nat)
       rw [this] at hwc
       exact saveGroup_within s h g u' e hwc
   case saveMessage m =>
-    refine stepOK_opt s _ ch (saveMessage s m ch.head?) (Store.saveMessage s.u m) rfl rfl h ?_ ?_
+    refine stepOK_opt s _ ch (saveMessage s m) (Store.saveMessage s.u m) rfl rfl h ?_ ?_
     · intro e
       unfold Store.saveMessage at e
       simp only [h.hb] at e
@@ -820,7 +820,7 @@ theorem step_within (s : MemStore) (h : CInv s) (op : Op) (ch : List Nat)
     · intro u' e
       have : (Store.step s.u (.saveMessage m)).1 = u' := by simp only [Store.step, e, Store.okErr]
       rw [this] at hwc
-      exact saveMessage_within s h m _ u' e hwc
+      exact saveMessage_within s h m u' e hwc
   case replaceRelays gid rs =>
     refine stepOK_opt s _ ch (replaceRelays s gid rs) (Store.replaceRelays s.u gid rs) rfl rfl h ?_ ?_
     · intro e; unfold replaceRelays; rw [e]
@@ -1171,7 +1171,7 @@ def giPutN (cap : Nat) (x : GI) (k : Nat) : GI :=
 
 theorem of_putGroups (s : MemStore) (k : Nat) :
     GI.of (putGroups s k) = giPutG s.cap (GI.of s) k ∧ (putGroups s k).cap = s.cap ∧ (putGroups s k).u.backend = s.u.backend ∧
-      (putGroups s k).u.snaps = s.u.snaps := by
+      (putGroups s k).u.snaps = s.u.snaps ∧ (putGroups s k).msgCap = s.msgCap ∧ (putGroups s k).u.msgs = s.u.msgs := by
   unfold putGroups giPutG GI.of
   simp only []
   generalize (qTouch s.cap k s.qGroups) = r
@@ -1180,7 +1180,7 @@ theorem of_putGroups (s : MemStore) (k : Nat) :
 
 theorem of_putByNid (s : MemStore) (k : Nat) :
     GI.of (putByNid s k) = giPutN s.cap (GI.of s) k ∧ (putByNid s k).cap = s.cap ∧ (putByNid s k).u.backend = s.u.backend ∧
-      (putByNid s k).u.snaps = s.u.snaps := by
+      (putByNid s k).u.snaps = s.u.snaps ∧ (putByNid s k).msgCap = s.msgCap ∧ (putByNid s k).u.msgs = s.u.msgs := by
   unfold putByNid giPutN GI.of
   simp only []
   generalize (qTouch s.cap k s.qByNid) = r
@@ -1292,16 +1292,16 @@ theorem saveGroup_mem_nocoll (u u' : Store) (g : Group) (hb : u.backend = .mem) 
 
 theorem of_saveGroup (s : MemStore) (g : Group) (s' : MemStore) (hb : s.u.backend = .mem) (h : saveGroup s g = some s') :
     GI.of s' = giSave s.cap (GI.of s) g ∧ (∀ o, alookup g.nid s.u.byNid = some o → o.gid = g.gid) ∧
-      s'.cap = s.cap ∧ s'.u.backend = .mem ∧ s'.u.snaps = s.u.snaps := by
+      s'.cap = s.cap ∧ s'.u.backend = .mem ∧ s'.u.snaps = s.u.snaps ∧ s'.msgCap = s.msgCap ∧ s'.u.msgs = s.u.msgs := by
   cases hs : Store.saveGroup s.u g with
   | none => unfold saveGroup at h; rw [hs] at h; cases h
   | some u' =>
     rw [saveGroup_eq s g u' hs] at h
     have h' := (Option.some.inj h).symm
     have hu := saveGroup_mem_some s.u u' g hb hs
-    obtain ⟨a1, a2, a3, a4⟩ := of_putGroups { s with u := u', qByNid := staleQ s g } g.gid
-    obtain ⟨b1, b2, b3, b4⟩ := of_putByNid (putGroups { s with u := u', qByNid := staleQ s g } g.gid) g.nid
-    refine ⟨?_, saveGroup_mem_nocoll s.u u' g hb hs, ?_, ?_, ?_⟩
+    obtain ⟨a1, a2, a3, a4, a5, a6⟩ := of_putGroups { s with u := u', qByNid := staleQ s g } g.gid
+    obtain ⟨b1, b2, b3, b4, b5, b6⟩ := of_putByNid (putGroups { s with u := u', qByNid := staleQ s g } g.gid) g.nid
+    refine ⟨?_, saveGroup_mem_nocoll s.u u' g hb hs, ?_, ?_, ?_, by rw [h', b5, a5], by rw [h', b6, a6]; show u'.msgs = _; rw [hu]⟩
     · rw [h', b1, a1, a2]
       show giPutN s.cap (giPutG s.cap ⟨u'.groups, u'.byNid, s.qGroups, staleQ s g⟩ g.gid) g.nid = _
       rw [hu]
@@ -1477,46 +1477,47 @@ structure GFrame (a b : MemStore) : Prop where
   cap : a.cap = b.cap
   hb : a.u.backend = b.u.backend
   sn : a.u.snaps = b.u.snaps
+  mcap : a.msgCap = b.msgCap
 
-theorem gframe_refl (a : MemStore) : GFrame a a := ⟨rfl, rfl, rfl, rfl⟩
+theorem gframe_refl (a : MemStore) : GFrame a a := ⟨rfl, rfl, rfl, rfl, rfl⟩
 theorem gframe_trans {a b c : MemStore} (h1 : GFrame a b) (h2 : GFrame b c) : GFrame a c :=
-  ⟨h1.gi.trans h2.gi, h1.cap.trans h2.cap, h1.hb.trans h2.hb, h1.sn.trans h2.sn⟩
+  ⟨h1.gi.trans h2.gi, h1.cap.trans h2.cap, h1.hb.trans h2.hb, h1.sn.trans h2.sn, h1.mcap.trans h2.mcap⟩
 
 theorem gframe_putRelays (s : MemStore) (k : Nat) : GFrame (putRelays s k) s := by
   unfold putRelays
   generalize (qTouch s.cap k s.qRelays) = r
   obtain ⟨r1, r2⟩ := r
-  cases r2 <;> exact ⟨rfl, rfl, rfl, rfl⟩
+  cases r2 <;> exact ⟨rfl, rfl, rfl, rfl, rfl⟩
 theorem gframe_putSecrets (s : MemStore) (k : Nat × Nat) : GFrame (putSecrets s k) s := by
   unfold putSecrets
   generalize (qTouch s.cap k s.qSecrets) = r
   obtain ⟨r1, r2⟩ := r
-  cases r2 <;> exact ⟨rfl, rfl, rfl, rfl⟩
+  cases r2 <;> exact ⟨rfl, rfl, rfl, rfl, rfl⟩
 theorem gframe_putWelcomes (s : MemStore) (k : Nat) : GFrame (putWelcomes s k) s := by
   unfold putWelcomes
   generalize (qTouch s.cap k s.qWelcomes) = r
   obtain ⟨r1, r2⟩ := r
-  cases r2 <;> exact ⟨rfl, rfl, rfl, rfl⟩
+  cases r2 <;> exact ⟨rfl, rfl, rfl, rfl, rfl⟩
 theorem gframe_putPws (s : MemStore) (k : Nat) : GFrame (putPws s k) s := by
   unfold putPws
   generalize (qTouch s.cap k s.qPws) = r
   obtain ⟨r1, r2⟩ := r
-  cases r2 <;> exact ⟨rfl, rfl, rfl, rfl⟩
+  cases r2 <;> exact ⟨rfl, rfl, rfl, rfl, rfl⟩
 theorem gframe_putById (s : MemStore) (k : Nat) : GFrame (putById s k) s := by
   unfold putById
   generalize (qTouch s.cap k s.qById) = r
   obtain ⟨r1, r2⟩ := r
-  cases r2 <;> exact ⟨rfl, rfl, rfl, rfl⟩
+  cases r2 <;> exact ⟨rfl, rfl, rfl, rfl, rfl⟩
 theorem gframe_putMsgGroups (s : MemStore) (k : Nat) : GFrame (putMsgGroups s k) s := by
   unfold putMsgGroups
   generalize (qTouch s.cap k s.qMsgGroups) = r
   obtain ⟨r1, r2⟩ := r
-  cases r2 <;> exact ⟨rfl, rfl, rfl, rfl⟩
+  cases r2 <;> exact ⟨rfl, rfl, rfl, rfl, rfl⟩
 theorem gframe_putPms (s : MemStore) (k : Nat) : GFrame (putPms s k) s := by
   unfold putPms
   generalize (qTouch s.cap k s.qPms) = r
   obtain ⟨r1, r2⟩ := r
-  cases r2 <;> exact ⟨rfl, rfl, rfl, rfl⟩
+  cases r2 <;> exact ⟨rfl, rfl, rfl, rfl, rfl⟩
 
 theorem gframe_foldSecrets (gid : Nat) (es : List Nat) : ∀ a : MemStore,
     GFrame (es.foldl (fun acc e => putSecrets acc (gid, e)) a) a := by
@@ -1524,8 +1525,8 @@ theorem gframe_foldSecrets (gid : Nat) (es : List Nat) : ∀ a : MemStore,
   | nil => intro a; exact gframe_refl a
   | cons e t ih => intro a; exact gframe_trans (ih _) (gframe_putSecrets a (gid, e))
 
-theorem gframe_saveMessage (s : MemStore) (m : Msg) (pick : Option Nat) (s' : MemStore)
-    (h : saveMessage s m pick = some s') : GFrame s' s := by
+theorem gframe_saveMessage (s : MemStore) (m : Msg) (s' : MemStore)
+    (h : saveMessage s m = some s') : GFrame s' s := by
   unfold saveMessage at h
   split at h
   · cases h
@@ -1534,21 +1535,21 @@ theorem gframe_saveMessage (s : MemStore) (m : Msg) (pick : Option Nat) (s' : Me
       rw [h']
       refine gframe_trans (gframe_putById _ _) ?_
       have hs1 : GFrame (if capHit s m then
-          match victim (groupMsgs s.u m.gid) pick with
+          match victim (groupMsgs s.u m.gid) with
           | some v => { s with u := { s.u with msgs := s.u.msgs.filter (fun x => !(x.gid == m.gid && x.id == v)) },
                                byId := aerase v s.byId, qById := qRemove v s.qById, evlog := (9, v) :: s.evlog }
           | none => s
         else s) s := by
         split
-        · split <;> exact ⟨rfl, rfl, rfl, rfl⟩
+        · split <;> exact ⟨rfl, rfl, rfl, rfl, rfl⟩
         · exact gframe_refl s
       refine gframe_trans ?_ hs1
-      exact ⟨rfl, rfl, rfl, rfl⟩
+      exact ⟨rfl, rfl, rfl, rfl, rfl⟩
     · have h' := (Option.some.inj h).symm
       rw [h']
       refine gframe_trans (gframe_putById _ _) ?_
-      refine gframe_trans ?_ (gframe_trans (gframe_putMsgGroups { s with u := { s.u with msgs := upsertMsg m s.u.msgs } } m.gid) ⟨rfl, rfl, rfl, rfl⟩)
-      exact ⟨rfl, rfl, rfl, rfl⟩
+      refine gframe_trans ?_ (gframe_trans (gframe_putMsgGroups { s with u := { s.u with msgs := upsertMsg m s.u.msgs } } m.gid) ⟨rfl, rfl, rfl, rfl, rfl⟩)
+      exact ⟨rfl, rfl, rfl, rfl, rfl⟩
 
 theorem of_snapRollback (s : MemStore) (gid name : Nat) (ch : List Nat) (s' : MemStore) (hb : s.u.backend = .mem)
     (h : snapRollback s gid name ch = some s') :
@@ -1609,8 +1610,8 @@ theorem of_snapRollback (s : MemStore) (gid name : Nat) (ch : List Nat) (s' : Me
       rfl
     | some g =>
       simp only []
-      obtain ⟨a1, a2, a3, a4⟩ := of_putGroups (afterPops s u' p) p.gid
-      obtain ⟨b1, b2, b3, b4⟩ := of_putByNid (putGroups (afterPops s u' p) p.gid) g.nid
+      obtain ⟨a1, a2, a3, a4, _, _⟩ := of_putGroups (afterPops s u' p) p.gid
+      obtain ⟨b1, b2, b3, b4, _, _⟩ := of_putByNid (putGroups (afterPops s u' p) p.gid) g.nid
       rw [b1, b2, b3, b4, a1, a2, a3, a4]
       subst hu
       refine ⟨?_, rfl, hb, rfl⟩
@@ -1648,7 +1649,7 @@ theorem pinv_frame (s s' : MemStore) (h : PInv s) (f : GFrame s' s) : PInv s' :=
   ⟨f.hb.trans h.hb, by rw [f.cap]; exact h.pos, by rw [f.cap, f.gi]; exact h.paired, by rw [f.sn]; exact h.sg⟩
 
 theorem pinv_saveGroup (s : MemStore) (h : PInv s) (g : Group) (s' : MemStore) (hs : saveGroup s g = some s') : PInv s' := by
-  obtain ⟨e1, e2, e3, e4, e5⟩ := of_saveGroup s g s' h.hb hs
+  obtain ⟨e1, e2, e3, e4, e5, _, _⟩ := of_saveGroup s g s' h.hb hs
   exact ⟨e4, by rw [e3]; exact h.pos, by rw [e3, e1]; exact paired_save s.cap h.pos _ h.paired g e2, by rw [e5]; exact h.sg⟩
 
 theorem step_paired (s : MemStore) (h : PInv s) (op : Op) (ch : List Nat) (hnc : noCollision s op = true) :
@@ -1707,24 +1708,24 @@ theorem step_paired (s : MemStore) (h : PInv s) (op : Op) (ch : List Nat) (hnc :
     exact ⟨h.hb, h.pos, h.paired, fun p hp => h.sg p (List.mem_filter.mp hp).1⟩
   case saveMessage m =>
     simp only [step]
-    cases hs : saveMessage s m ch.head? with
+    cases hs : saveMessage s m with
     | none => exact h
-    | some s' => exact pinv_frame s s' h (gframe_saveMessage s m _ s' hs)
-  case savePm p => exact pinv_frame s _ h (gframe_trans (gframe_putPms _ _) ⟨rfl, rfl, rfl, rfl⟩)
-  case savePw p => exact pinv_frame s _ h (gframe_trans (gframe_putPws _ _) ⟨rfl, rfl, rfl, rfl⟩)
-  case invalMsgs gid e => exact pinv_frame s _ h ⟨rfl, rfl, rfl, rfl⟩
-  case invalPms gid e => exact pinv_frame s _ h ⟨rfl, rfl, rfl, rfl⟩
+    | some s' => exact pinv_frame s s' h (gframe_saveMessage s m s' hs)
+  case savePm p => exact pinv_frame s _ h (gframe_trans (gframe_putPms _ _) ⟨rfl, rfl, rfl, rfl, rfl⟩)
+  case savePw p => exact pinv_frame s _ h (gframe_trans (gframe_putPws _ _) ⟨rfl, rfl, rfl, rfl, rfl⟩)
+  case invalMsgs gid e => exact pinv_frame s _ h ⟨rfl, rfl, rfl, rfl, rfl⟩
+  case invalPms gid e => exact pinv_frame s _ h ⟨rfl, rfl, rfl, rfl, rfl⟩
   case markRetryable w =>
     simp only [step, markRetryable]
     cases hm : Store.markRetryable s.u w with
-    | none => exact pinv_frame s _ h ⟨rfl, rfl, rfl, rfl⟩
+    | none => exact pinv_frame s _ h ⟨rfl, rfl, rfl, rfl, rfl⟩
     | some u' =>
       have hu : ∃ p, u' = { s.u with pms := upsertPm p s.u.pms } := by
         unfold Store.markRetryable at hm
         repeat' split at hm
         all_goals first | (cases hm; done) | (cases hm; exact ⟨_, rfl⟩)
       obtain ⟨p, rfl⟩ := hu
-      exact pinv_frame s _ h ⟨rfl, rfl, rfl, rfl⟩
+      exact pinv_frame s _ h ⟨rfl, rfl, rfl, rfl, rfl⟩
   case replaceRelays gid rs =>
     simp only [step, replaceRelays]
     cases hs : Store.replaceRelays s.u gid rs with
@@ -1736,7 +1737,7 @@ theorem step_paired (s : MemStore) (h : PInv s) (op : Op) (ch : List Nat) (hnc :
         repeat' split at hs
         all_goals first | (cases hs; done) | (cases hs; rfl)
       subst hu
-      exact pinv_frame s _ h (gframe_trans (gframe_putRelays _ _) ⟨rfl, rfl, rfl, rfl⟩)
+      exact pinv_frame s _ h (gframe_trans (gframe_putRelays _ _) ⟨rfl, rfl, rfl, rfl, rfl⟩)
   case saveSecret gid ep v =>
     simp only [step, saveSecret]
     cases hs : Store.saveSecret s.u gid ep v with
@@ -1747,7 +1748,7 @@ theorem step_paired (s : MemStore) (h : PInv s) (op : Op) (ch : List Nat) (hnc :
         repeat' split at hs
         all_goals first | (cases hs; done) | (cases hs; rfl)
       subst hu
-      exact pinv_frame s _ h (gframe_trans (gframe_putSecrets _ _) ⟨rfl, rfl, rfl, rfl⟩)
+      exact pinv_frame s _ h (gframe_trans (gframe_putSecrets _ _) ⟨rfl, rfl, rfl, rfl, rfl⟩)
   case saveWelcome w =>
     simp only [step, saveWelcome]
     cases hs : Store.saveWelcome s.u w with
@@ -1758,9 +1759,9 @@ theorem step_paired (s : MemStore) (h : PInv s) (op : Op) (ch : List Nat) (hnc :
         repeat' split at hs
         all_goals first | (cases hs; done) | (cases hs; rfl)
       subst hu
-      exact pinv_frame s _ h (gframe_trans (gframe_putWelcomes _ _) ⟨rfl, rfl, rfl, rfl⟩)
-  case mlsWrite gid k v => exact pinv_frame s _ h ⟨rfl, rfl, rfl, rfl⟩
-  case mlsDelete gid k => exact pinv_frame s _ h ⟨rfl, rfl, rfl, rfl⟩
+      exact pinv_frame s _ h (gframe_trans (gframe_putWelcomes _ _) ⟨rfl, rfl, rfl, rfl, rfl⟩)
+  case mlsWrite gid k v => exact pinv_frame s _ h ⟨rfl, rfl, rfl, rfl, rfl⟩
+  case mlsDelete gid k => exact pinv_frame s _ h ⟨rfl, rfl, rfl, rfl, rfl⟩
   all_goals exact h
 
 theorem run_paired (ops : List (Op × List Nat)) : ∀ s : MemStore, PInv s → NoCollisionRun s ops = true → PInv (run s ops) := by
